@@ -384,3 +384,39 @@ Proof.
         (conj Demo.estimate_runs (conj Demo.mcmc_hypotheses Demo.mcmc_runs))))))).
 Qed.
 Print Assumptions C13_state_examples.
+
+(* ====================================================================== source-level tie (Api/SrcProg*.v, coq/gen/GenC13.v)
+   The programs below are REGENERATED from the python source on every run (harness/translate/c13_calls.py); the object every
+   clone / put / read addresses is copied from the source and resolved by [denote].  The statements quantify over every
+   instance: number of individuals or requests, variable lists, values, optimiser and sampler activity. *)
+From Coq Require Import String.   (* after this point `length` is String.length: write List.length *)
+From Leaspy Require Import Api.SrcProg Api.SrcProgProofs Api.SrcProgGenProofs.
+From LeaspyGen Require Import GenC13.
+
+(** `BaseModel.estimate` -> `compute_individual_trajectory` (models/mcmc_saem_compatible.py; models/joint.py when [joint]) as
+    written today: for every instance the generated program denotes [estimate_many] of the instance's requests; every event
+    leaves the model's own state alone and uses no generator; the call leaves the model's State OBJECT, the pointer to it
+    and the three generators exactly as they were. *)
+Theorem C13_src_estimate_pure :
+  forall (V : Type) sread swrite sclone tracked tape seed_pos (joint : bool) (I : inst V),
+    exists script,
+      denote V I (if joint then gen_estimate_joint else gen_estimate) = Some script
+      /\ script = (if joint
+                   then estimate_many V 0 (i_name V I "t"%string) (estj_outs V I) (map (estj_req V I) (seq 0 (i_n V I)))
+                   else estimate_many V 0 (i_name V I "t"%string) [i_name V I "model"%string] (map (est_req V I) (seq 0 (i_n V I))))
+      /\ forallb (untouched_ev V) script = true /\ forallb (nodraw_ev V) script = true
+      /\ forall s p c', api_call V sread swrite sclone tracked tape seed_pos script s p = Some c' ->
+                        nth_error (cS c') 0 = Some s /\ cCur c' = 0 /\ cPos c' = p.
+Proof. exact src_estimate_pure. Qed.
+Print Assumptions C13_src_estimate_pure.
+
+(** Non-vacuity: on the memo table the generated estimate program, instantiated with two requests, IS the script
+    [MemoCalls.est2] of C13_call_examples and runs to a + t for each, the state object untouched. *)
+Theorem C13_src_examples :
+  denote Memo.V SrcDemo.est_inst gen_estimate = Some MemoCalls.est2
+  /\ option_map (fun c => (cRegs c, nth_error (cS c) 0, cCur c))
+                (match denote Memo.V SrcDemo.est_inst gen_estimate with
+                 | Some sc => Memo.api_call sc Memo.after_fit (4, 5, 6) | None => None end)
+     = Some ([Some 18%Z; Some 17%Z], Some Memo.after_fit, 0).
+Proof. exact SrcDemo.estimate_demo. Qed.
+Print Assumptions C13_src_examples.
